@@ -101,15 +101,28 @@ def plan(tier):
     for n in (0, 1, 2, 3):
         pl.units.append(Unit("G3.complete_cb.list%d" % n, "contracts.gating", "h_complete_cb_list", (n,),
                              meta={"sample_models": True, "native_ok": True}))
+    pl.units.append(Unit("G3.complete_cb.anylist", "contracts.gating", "h_complete_cb_anylist", (),
+                         setup=("contracts.gating", "setup_complete_cb")))
     pl.units.append(Unit("G3.reset", "contracts.gating", "h_reset_parser", (), meta={"native_ok": True, "sample_models": True}))
     pl.units.append(Unit("N.message", "contracts.gating", "h_message", (), meta={"native_ok": True, "sample_models": True}))
 
+    # message clause: an ExtensionNotLoaded raised by a gate travels unchanged through the parser's step functions
+    pl.units += [u for u in common.pushdown_units() if u.uid.startswith(("PD.arguments.identifier", "PD.command.identifier"))]
+
     def label_filter(u, label):
+        if u.uid.startswith("PD."):
+            return label.endswith("lookup-error-reaches-the-funnel-unchanged")
         if u.uid.startswith("G2."):
             return label.startswith("gate.") or label in ("frame.loaded_extensions", "inv", "iscomplete.inv", "init.state")
         return not label.startswith("X.")
 
     pl.label_filter = label_filter
+
+    def bounded_removal(tier, seed):
+        from bounded import parser_bounded as pb
+        return pb.bounded_removal(PID, tier, seed)
+
+    pl.bounded = [bounded_removal]
     pl.static = [static_G3_G4_N, static_T]
     pl.functions = common.ARG_FUNCTIONS + [("sievelib.commands", "get_command_instance"),
                                            ("sievelib.commands", "RequireCommand.complete_cb"),
@@ -120,13 +133,17 @@ def plan(tier):
                   "command/tag needs which capability"]
     pl.unverified = [
         "that every token of a script reaches one of the three gates (push-down layer): bounded only, see C01.P",
-        "RequireCommand.complete_cb for lists: loop unrolled for 0..3 capabilities (bounded in list length); "
-        "the single-string form and the loop body are unbounded in the values",
+        "(RequireCommand.complete_cb for lists is proved for ANY list length through a loop invariant with a Skolem probe and "
+        "position -- G3.complete_cb.anylist; the unrolled encodings for 0..3 capabilities are kept because they are the ones "
+        "that produce counter-models for changed code)",
     ]
     pl.explanation = (
         "Gate soundness and completeness as postconditions of the real get_command_instance / check_next_arg / "
         "complete_cb, discharged for every command class, every interpreter state satisfying the inductive invariant "
         "Inv_arg, every argument type, every tag value and every set of loaded extensions (symbolic set); plus frame "
         "scans showing the registry is written only by __reset_parser and complete_cb and that parser.py never turns a "
-        "check off; plus the frozen RFC capability table evaluated against the code tables.")
+        "check off; plus the frozen RFC capability table evaluated against the code tables. Bounded (labelled bounded, "
+        "exhaustive over the pool) for the converse clause at whole-script level: every generated valid script with each "
+        "capability removed from its require in turn -- rejected with `extension '<name>' not loaded` naming the first "
+        "missing extension in script order (reference validator), still accepted when the capability was not needed.")
     return pl
